@@ -35,10 +35,11 @@ PROBES = [
     "moved-to-earlier-root-by-assignment",
     "second-handle-on-the-same-store",
     "unrelated-tree-in-the-same-process",
+    "write-refused-by-store-tree-unchanged",
     "write-failed-on-lossy-store",
     "write-acknowledged-on-lossy-store-readable",
 ]
-FAULTS = ["crash-reopen", "store-lost-node"]
+FAULTS = ["crash-reopen", "store-lost-node", "write-fail-applied", "write-fail-not-applied"]
 COMPONENTS = {
     "real": ["trie.smt.SparseMerkleTree set/delete/get/exists/branch/from_db/dict API", "trie.smt.calc_root"],
     "stub": ["SimDB mapping swapped in for the tree's db", "writer / reader / operator actors"],
@@ -98,6 +99,36 @@ class SWorld:
     # -- commands ------------------------------------------------------------------
     def _write(self, cmd, k, v, fn, what):
         root_before = self.smt.root_hash
+        fw = cmd.get("fw")
+        if fw and not self.degraded:
+            # the store refuses one of the path writes of this call (never the final write of
+            # the root node: the tree points at the new root before that write, and nothing
+            # is promised about it)
+            n = 1 + int(fw[0]) % (self.ks * 8)
+            self.db.arm(fail_set=(n, bool(fw[1]), fw[2]))
+            try:
+                ret = fn()
+                failed = None
+            except BaseException as e:  # noqa: B036 - the injected interruption is a BaseException
+                failed = e
+            finally:
+                self.db.disarm()
+            if failed is not None:
+                if self.db.fired is None and not isinstance(failed, Exception):
+                    raise failed
+                self.db.fired = None
+                # a refused write ends the call; the store only ever gained entries, so the
+                # tree is what it was: same root, every key reads as before
+                if self.smt.root_hash != root_before:
+                    self.viol("lookup-mismatch", f"{what} was ended by a storage failure ({failed!r}) yet the root changed")
+                for kk in sorted(self.model)[:6] + [bytes(k)]:
+                    self.lookup(self.smt, kk, "get")
+                    self.check_key(kk)
+                self.st.fault("write-fail-applied" if fw[1] else "write-fail-not-applied")
+                self.st.probe("write-refused-by-store-tree-unchanged")
+                return None
+            self.db.fired = None
+            fn = lambda: ret  # the call went through (fewer writes than expected): judge it as usual
         try:
             ret = fn()
         except KeyError as e:
@@ -484,6 +515,11 @@ def generate(rng):
     vals = make_values(rng, unhx(cfg["default"]))
     n = rng.choice(deep([6, 10, 16, 25, 40], [10, 20, 40, 80])) if cfg["ks"] <= 8 else rng.choice(deep([6, 10, 16], [10, 20, 30]))
     cmds = gen_history(rng, keys, vals, n)
+    if rng.random() < 0.25:
+        # the store refuses a path write of some set / delete calls
+        for c in cmds:
+            if c["op"] in ("set", "del") and rng.random() < 0.15:
+                c["fw"] = [rng.randrange(1000), rng.randrange(2), rng.choice("EKOB")]
     if rng.random() < 0.3 and len(cmds) > 2:
         # other clients with tree objects of their own, interleaved
         shared = int(rng.random() < 0.6)
